@@ -1,14 +1,562 @@
-// Package c20 is the correspondence area of property C20 (stub: the slice is not built yet).
+// Package c20 corresponds the two path-template parsers (internal/httprule/gwbased, internal/httprule)
+// and the strict trie with the Lean models GB.C20; the grammar recogniser in the driver is the oracle.
+//
+// Input lines (byte strings hex-encoded):
+//
+//	gw <tmpl>                               gwbased.Parse + String() + Compile()
+//	st <tmpl>                               httprule.Parse + VerifDump()
+//	gtok <path> / stok <path>               the two tokenizers
+//	trie <method:tmpl,…|-> <method> <path>  NewTrie, Add of every template that parses, Find
 package c20
 
 import (
+	"fmt"
 	"math/rand"
+	"strconv"
+	"strings"
+
+	"github.com/renbou/grpcbridge/verifx"
+	"verif/harness/common"
 )
 
 type Area struct{}
 
 func (Area) Name() string { return "c20" }
 
-func (Area) Exec(input string) string { return "UNIMPLEMENTED" }
+var genCounts = map[string]int{}
 
-func (Area) Gen(r *rand.Rand, tier string, emit func(string)) {}
+func (Area) Extra() map[string]any {
+	m := map[string]any{}
+	for k, v := range genCounts {
+		m[k] = v
+	}
+	return m
+}
+
+func hexList(xs []string) string {
+	if len(xs) == 0 {
+		return "-"
+	}
+	h := make([]string, len(xs))
+	for i, x := range xs {
+		h[i] = common.HexS(x)
+	}
+	return strings.Join(h, ",")
+}
+
+func intList(xs []int) string {
+	if len(xs) == 0 {
+		return "-"
+	}
+	h := make([]string, len(xs))
+	for i, x := range xs {
+		h[i] = strconv.Itoa(x)
+	}
+	return strings.Join(h, ",")
+}
+
+func (Area) Exec(input string) string {
+	f := strings.Fields(input)
+	if len(f) < 2 {
+		return "BADOP"
+	}
+	switch f[0] {
+	case "gw":
+		s := string(common.MustUnHex(f[1]))
+		c, err := verifx.GWParse(s)
+		if err != nil {
+			return "err"
+		}
+		t := c.Compile()
+		return fmt.Sprintf("ok %s %s %s %s %s", common.HexS(verifx.GWString(c)), intList(t.OpCodes), hexList(t.Pool), common.HexS(t.Verb), hexList(t.Fields))
+	case "st":
+		s := string(common.MustUnHex(f[1]))
+		t, err := verifx.StrictParse(s)
+		if err != nil {
+			return "err"
+		}
+		return "ok " + common.HexS(t.VerifDump())
+	case "gtok":
+		toks, verb := verifx.GWTokenize(string(common.MustUnHex(f[1])))
+		return hexList(toks) + " " + common.HexS(verb)
+	case "stok":
+		return hexList(verifx.StrictTokenize(string(common.MustUnHex(f[1]))))
+	case "trie":
+		if len(f) != 4 {
+			return "BADOP"
+		}
+		tr := verifx.NewStrictTrie()
+		if f[1] != "-" {
+			for _, e := range strings.Split(f[1], ",") {
+				mt := strings.SplitN(e, ":", 2)
+				t, err := verifx.StrictParse(string(common.MustUnHex(mt[1])))
+				if err != nil {
+					continue
+				}
+				tr.Add(string(common.MustUnHex(mt[0])), t)
+			}
+		}
+		t, ok := tr.Find(string(common.MustUnHex(f[2])), string(common.MustUnHex(f[3])))
+		if !ok {
+			return "none"
+		}
+		return "found " + common.HexS(t.VerifTemplate())
+	}
+	return "BADOP"
+}
+
+// ---- grammar-directed generation -------------------------------------------------------------
+
+// tnode is one top-level segment of a derivation.
+type tnode struct {
+	text  string // rendered
+	isVar bool
+	multi bool // "**" or a variable ending in "**": only allowed last
+	lit   bool
+}
+
+type alpha struct {
+	lits   []string // literal segments (non-empty pchars, not "*" / "**")
+	idents []string
+	verbs  []string // verbs without a colon
+}
+
+var small = alpha{
+	lits:   []string{"a", "v1"},
+	idents: []string{"x", "_y1"},
+	verbs:  []string{"v", ""},
+}
+
+var rich = alpha{
+	lits: []string{"a", "b", "v1", "users", "a:b", ":x", "x:", "%2F", "%e7%ac", "*a", "***", "a*", "-._~", "!$&'()*+,;=:@", "=", ".", "a.b", "a=b", "@", "0", "A_z"},
+	idents: []string{"a", "b", "x", "_", "_y1", "Az09_", "name", "id"},
+	verbs:  []string{"v", "", "watch", "%41", "a.b", "*", "-._~!$&'()*+,;=@"},
+}
+
+// inner patterns of a variable: lists of "*", literals, optionally ending in "**"
+func innerPatterns(a alpha, maxLen int) (single []string, multi []string) {
+	atoms := append([]string{"*"}, a.lits...)
+	var rec func(prefix []string)
+	rec = func(prefix []string) {
+		if len(prefix) > 0 {
+			single = append(single, strings.Join(prefix, "/"))
+		}
+		if len(prefix) < maxLen {
+			multi = append(multi, strings.Join(append(append([]string{}, prefix...), "**"), "/"))
+		}
+		if len(prefix) == maxLen {
+			return
+		}
+		for _, x := range atoms {
+			rec(append(append([]string{}, prefix...), x))
+		}
+	}
+	rec(nil)
+	return
+}
+
+func fieldPaths(a alpha, maxLen int) []string {
+	var out []string
+	var rec func(prefix []string)
+	rec = func(prefix []string) {
+		if len(prefix) > 0 {
+			out = append(out, strings.Join(prefix, "."))
+		}
+		if len(prefix) == maxLen {
+			return
+		}
+		for _, x := range a.idents {
+			rec(append(append([]string{}, prefix...), x))
+		}
+	}
+	rec(nil)
+	return out
+}
+
+// segChoices lists every top-level segment over the alphabet.
+func segChoices(a alpha, maxInner, maxPath int) []tnode {
+	out := []tnode{{text: "*"}, {text: "**", multi: true}}
+	for _, l := range a.lits {
+		out = append(out, tnode{text: l, lit: true})
+	}
+	single, multi := innerPatterns(a, maxInner)
+	for _, fp := range fieldPaths(a, maxPath) {
+		out = append(out, tnode{text: "{" + fp + "}", isVar: true})
+		for _, p := range single {
+			out = append(out, tnode{text: "{" + fp + "=" + p + "}", isVar: true})
+		}
+		for _, p := range multi {
+			out = append(out, tnode{text: "{" + fp + "=" + p + "}", isVar: true, multi: true})
+		}
+	}
+	return out
+}
+
+// finish renders the verb alternatives of a segment list (reading of ':' as in Spec.lean).
+func finish(a alpha, segs []tnode, each func(string)) {
+	body := make([]string, len(segs))
+	for i, s := range segs {
+		body[i] = s.text
+	}
+	base := "/" + strings.Join(body, "/")
+	if len(segs) == 0 {
+		each(base)
+		for _, v := range a.verbs {
+			each(base + ":" + v)
+		}
+		return
+	}
+	last := segs[len(segs)-1]
+	if last.isVar {
+		each(base)
+		for _, v := range a.verbs {
+			each(base + ":" + v)
+			each(base + ":" + v + ":w")
+		}
+		return
+	}
+	// the last colon of a last literal starts the verb: every rendering is a derivation, possibly of another tree
+	each(base)
+	for _, v := range a.verbs {
+		each(base + ":" + v)
+	}
+}
+
+// enumerate all derivations with at most maxSegs top-level segments.
+func enumerate(a alpha, maxSegs, maxInner, maxPath int, each func(string)) {
+	choices := segChoices(a, maxInner, maxPath)
+	var rec func(prefix []tnode)
+	rec = func(prefix []tnode) {
+		finish(a, prefix, each)
+		if len(prefix) == maxSegs || (len(prefix) > 0 && prefix[len(prefix)-1].multi) {
+			return
+		}
+		for _, c := range choices {
+			rec(append(append([]tnode{}, prefix...), c))
+		}
+	}
+	rec(nil)
+}
+
+func randomDerivation(r *rand.Rand, a alpha) string {
+	n := 1 + r.Intn(4)
+	if r.Intn(25) == 0 {
+		n = 0
+	}
+	var segs []tnode
+	for i := 0; i < n; i++ {
+		last := i == n-1
+		switch k := r.Intn(10); {
+		case k < 4:
+			segs = append(segs, tnode{text: common.Pick(r, a.lits), lit: true})
+		case k < 5:
+			segs = append(segs, tnode{text: "*"})
+		case k < 6 && last:
+			segs = append(segs, tnode{text: "**", multi: true})
+		default:
+			np := 1 + r.Intn(3)
+			fp := make([]string, np)
+			for j := range fp {
+				fp[j] = common.Pick(r, a.idents)
+			}
+			t := "{" + strings.Join(fp, ".")
+			if r.Intn(3) > 0 {
+				ni := 1 + r.Intn(3)
+				in := make([]string, ni)
+				for j := range in {
+					if r.Intn(3) == 0 {
+						in[j] = "*"
+					} else {
+						in[j] = common.Pick(r, a.lits)
+					}
+				}
+				if last && r.Intn(3) == 0 {
+					if r.Intn(2) == 0 {
+						in = append(in, "**")
+					} else {
+						in[ni-1] = "**"
+					}
+				}
+				t += "=" + strings.Join(in, "/")
+			}
+			segs = append(segs, tnode{text: t + "}", isVar: true})
+		}
+	}
+	var outs []string
+	finish(a, segs, func(s string) { outs = append(outs, s) })
+	return common.Pick(r, outs)
+}
+
+// template punctuation, identifier / literal bytes, every pchar punctuation byte that is not an
+// identifier byte, and bytes foreign to templates
+var mutAlphabet = []byte("/{}=.*:%a1_A-~ \x00\xff?#[\"$!&'()+,;@9zZ<>\\|^`")
+
+// mutations emits every single-edit mutation of s over the template alphabet.
+func mutations(s string, each func(string)) {
+	b := []byte(s)
+	for i := 0; i <= len(b); i++ {
+		for _, c := range mutAlphabet {
+			each(string(b[:i]) + string(c) + string(b[i:]))
+		}
+		if i < len(b) {
+			each(string(b[:i]) + string(b[i+1:]))
+			for _, c := range mutAlphabet {
+				if c != b[i] {
+					each(string(b[:i]) + string(c) + string(b[i+1:]))
+				}
+			}
+		}
+	}
+}
+
+func randomMutation(r *rand.Rand, s string) string {
+	b := []byte(s)
+	for k := 1 + r.Intn(2); k > 0; k-- {
+		i := 0
+		if len(b) > 0 {
+			i = r.Intn(len(b) + 1)
+		}
+		c := common.Pick(r, mutAlphabet)
+		switch op := r.Intn(4); {
+		case op == 0 || len(b) == 0 || i == len(b):
+			b = append(b[:i:i], append([]byte{c}, b[i:]...)...)
+		case op == 1:
+			b = append(b[:i:i], b[i+1:]...)
+		case op == 2:
+			b[i] = c
+		default: // duplicate or swap
+			if i+1 < len(b) {
+				b[i], b[i+1] = b[i+1], b[i]
+			} else {
+				b = append(b, b[i])
+			}
+		}
+	}
+	return string(b)
+}
+
+// ---- trie cases --------------------------------------------------------------------------------
+
+var trieAlpha = alpha{
+	lits:   []string{"a", "b", "a:v", "v", "a:b"},
+	idents: []string{"x"},
+	verbs:  []string{"v", "w", "b"},
+}
+
+func randomPathFor(r *rand.Rand, tmpl string) string {
+	// instantiate the template textually: variables and wildcards become components
+	comps := []string{"a", "b", "x", "a:v", "x:v", "", "v", "a:b", "a:b:c", "x:w:v"}
+	var out []string
+	body := strings.TrimPrefix(tmpl, "/")
+	depth := 0
+	cur := ""
+	flushSeg := func() {
+		switch {
+		case strings.HasPrefix(cur, "{"):
+			if strings.Contains(cur, "**") {
+				for k := r.Intn(3); k >= 0; k-- {
+					out = append(out, common.Pick(r, comps))
+				}
+			} else {
+				for k := strings.Count(cur, "/"); k >= 0; k-- {
+					out = append(out, common.Pick(r, comps))
+				}
+			}
+		case cur == "*":
+			out = append(out, common.Pick(r, comps))
+		case cur == "**":
+			for k := r.Intn(3); k >= 0; k-- {
+				out = append(out, common.Pick(r, comps))
+			}
+		default:
+			out = append(out, cur)
+		}
+		cur = ""
+	}
+	for i := 0; i < len(body); i++ {
+		c := body[i]
+		if c == '{' {
+			depth++
+		} else if c == '}' {
+			depth--
+		}
+		if c == '/' && depth == 0 {
+			flushSeg()
+			continue
+		}
+		cur += string(c)
+	}
+	// the last piece may carry the verb: keep it textually
+	verb := ""
+	if j := strings.LastIndex(cur, "}"); j >= 0 {
+		verb, cur = cur[j+1:], cur[:j+1]
+	} else if j := strings.LastIndex(cur, ":"); j >= 0 {
+		verb, cur = cur[j:], cur[:j]
+	}
+	flushSeg()
+	p := "/" + strings.Join(out, "/") + verb
+	switch r.Intn(8) {
+	case 0:
+		p += ":" + common.Pick(r, trieAlpha.verbs)
+	case 1:
+		if j := strings.LastIndex(p, ":"); j >= 0 {
+			p = p[:j]
+		}
+	case 2:
+		p += "/" + common.Pick(r, comps)
+	case 3:
+		p = strings.TrimPrefix(p, "/")
+	}
+	return p
+}
+
+func (Area) Gen(r *rand.Rand, tier string, emit func(string)) {
+	thorough := tier == "thorough"
+	count := func(k string) { genCounts[k]++ }
+	parseBoth := func(kind, s string) {
+		count(kind)
+		emit("gw " + common.HexS(s))
+		emit("st " + common.HexS(s))
+	}
+	tokBoth := func(s string) {
+		count("tokenizer")
+		emit("gtok " + common.HexS(s))
+		emit("stok " + common.HexS(s))
+	}
+
+	// 1. every derivation up to the size bound (small alphabet), tokenizers on their bodies
+	maxSegs, maxInner, maxPath := 2, 2, 2
+	var derivs []string
+	enumerate(small, maxSegs, maxInner, maxPath, func(s string) {
+		derivs = append(derivs, s)
+	})
+	if thorough {
+		// all derivations with ≤ 2 segments (patterns ≤ 2, field paths ≤ 2), and all with ≤ 3 segments
+		// over patterns / field paths of length 1
+		for _, s := range derivs {
+			parseBoth("derivation-enumerated", s)
+		}
+		enumerate(small, 3, 1, 1, func(s string) { parseBoth("derivation-enumerated", s) })
+	} else {
+		// quick: all with ≤ 1 segment, a seeded sample of the 2-segment ones
+		var one []string
+		enumerate(small, 1, maxInner, maxPath, func(s string) { one = append(one, s) })
+		for _, s := range one {
+			parseBoth("derivation-enumerated", s)
+		}
+		for i := 0; i < 4000; i++ {
+			parseBoth("derivation-enumerated", common.Pick(r, derivs))
+		}
+	}
+	for i := 0; i < 300; i++ {
+		tokBoth(common.Pick(r, derivs)[1:])
+	}
+
+	// 2. every single-edit mutation of derivations
+	nm := 60
+	if thorough {
+		nm = 1500
+	}
+	for i := 0; i < nm; i++ {
+		var d string
+		if i%2 == 0 {
+			d = common.Pick(r, derivs)
+		} else {
+			d = randomDerivation(r, rich)
+		}
+		mutations(d, func(s string) { parseBoth("mutation-single-edit", s) })
+	}
+
+	// 3. random derivations over the rich alphabet, and random mutations of them
+	n := 6000
+	if thorough {
+		n = 300000
+	}
+	for i := 0; i < n; i++ {
+		d := randomDerivation(r, rich)
+		parseBoth("derivation-random", d)
+		parseBoth("mutation-random", randomMutation(r, d))
+		if i%4 == 0 {
+			if m := randomMutation(r, d); len(m) > 0 {
+				tokBoth(m[1:])
+			}
+		}
+	}
+
+	// 3b. byte sweep: every byte value at every kind of position (literal, identifier start / rest,
+	// after '.', pattern, verb after a literal / after a variable, percent-escape digits)
+	for b := 0; b < 256; b++ {
+		c := string([]byte{byte(b)})
+		for _, f := range []string{"/%s", "/a%s", "/{%s}", "/{a%s}", "/{a.%s}", "/{a.b%s}", "/{a=%s}", "/{a=b%s}", "/{a=b/%s}", "/a:%s", "/a:v%s", "/{a}:%s", "/{a}%s", "/%%%s0", "/%%0%s", "/a:%%%s0", "/a/%s/b", "/%s/b"} {
+			parseBoth("byte-sweep", fmt.Sprintf(f, c))
+		}
+	}
+
+	// 4. arbitrary strings: over the template alphabet, and arbitrary bytes
+	talpha := []byte("/{}=.*:%aZ09_-~$@!")
+	for i := 0; i < n/2; i++ {
+		s := string(common.RandBytes(r, r.Intn(9), talpha))
+		if r.Intn(4) > 0 {
+			s = "/" + s
+		}
+		parseBoth("random-template-alphabet", s)
+		if i%4 == 0 {
+			tokBoth(s)
+		}
+	}
+	for i := 0; i < n/6; i++ {
+		s := string(common.RandBytes(r, r.Intn(8), nil))
+		if r.Intn(2) > 0 {
+			s = "/" + s
+		}
+		parseBoth("random-bytes", s)
+		tokBoth(s)
+	}
+	// exhaustive short strings over a small alphabet
+	ex := []byte("/{}=.*:a%")
+	maxLen := 4
+	if thorough {
+		maxLen = 5
+	}
+	var rec func(prefix []byte)
+	rec = func(prefix []byte) {
+		parseBoth("exhaustive-short", "/"+string(prefix))
+		if len(prefix) == maxLen {
+			return
+		}
+		for _, c := range ex {
+			rec(append(append([]byte{}, prefix...), c))
+		}
+	}
+	rec(nil)
+
+	// 5. trie: small template sets with colliding literals / verbs, paths derived from them
+	nt := 4000
+	if thorough {
+		nt = 150000
+	}
+	methods := []string{"GET", "POST"}
+	for i := 0; i < nt; i++ {
+		k := 1 + r.Intn(5)
+		var tmpls, entries []string
+		for j := 0; j < k; j++ {
+			t := randomDerivation(r, trieAlpha)
+			if r.Intn(12) == 0 {
+				t = randomMutation(r, t)
+			}
+			m := methods[0]
+			if r.Intn(5) == 0 {
+				m = methods[1]
+			}
+			tmpls = append(tmpls, t)
+			entries = append(entries, common.HexS(m)+":"+common.HexS(t))
+		}
+		p := randomPathFor(r, common.Pick(r, tmpls))
+		m := methods[0]
+		if r.Intn(8) == 0 {
+			m = methods[1]
+		}
+		count("trie")
+		emit("trie " + strings.Join(entries, ",") + " " + common.HexS(m) + " " + common.HexS(p))
+	}
+}
